@@ -24,9 +24,13 @@ class LevelCache;
 #include "../Utilities/cmdline.h"
 #include "../common/global_definitions.h"
 #include "test_cases.h"
+#include "../common/verif_hooks.h"
 
 class GMGPolar
 {
+#ifdef GMGPOLAR_VERIF
+    friend struct GMGPolarVerifAccess; /* test harness access to levels_ and the private cycles */
+#endif
 public:
     /* ------------------------ */
     /* GMGPoloar initialization */
